@@ -50,7 +50,7 @@ func init() {
 	simMerge := []string{
 		ModPath + ".similar", ModPath + ".pointSimilar", ModPath + ".pointsSimilar", ModPath + ".pointssSimilar",
 		"(" + ModPath + ".LineString).Similar", "(" + ModPath + ".Point).Similar", "(" + ModPath + ".MultiPoint).Similar",
-		ModPath + ".nextPt",
+		ModPath + ".ringSimilar",
 	}
 	reg(&Property{
 		ID: "C15", Pkgs: []string{"."}, Level: "model_checking",
